@@ -2,6 +2,7 @@ package sym
 
 import (
 	"fmt"
+	"os"
 	"go/types"
 	"sort"
 	"strings"
@@ -244,8 +245,31 @@ func (e *Exec) feasible(st *State, c *Term) (bool, Result) {
 		return r != Unsat, r
 	}
 	asserts := e.relevant(append(append([]*Term{}, st.PC...), c))
+	// cached concrete models: a model satisfying PC, definitions and c proves feasibility without a solver call
+	for i := len(e.models) - 1; i >= 0 && i >= len(e.models)-24; i-- {
+		m := e.models[i]
+		ok := true
+		for _, a := range asserts {
+			if _, b := Eval(a, m.Ints, m.Bools); !b {
+				ok = false
+				break
+			}
+		}
+		if ok {
+			e.ModelHits++
+			e.feasCache[key] = Sat
+			return true, Sat
+		}
+	}
 	e.BranchQueries++
-	r, _, _, _ := e.Solver.Check(asserts, e.BranchTimeoutMs, false, e.branchSolver())
+	r, model, _, secs := e.Solver.Check(asserts, e.BranchTimeoutMs, true, e.branchSolver())
+	if r == Sat && model != nil {
+		e.models = append(e.models, model)
+	}
+	e.BranchSecs += secs
+	if secs > 1.0 && os.Getenv("GOSYM_PROF") != "" {
+		fmt.Fprintf(os.Stderr, "slow branch query %.1fs -> %s (pc=%d conjuncts, cond=%s)\n", secs, r, len(st.PC), truncate(c.String(), 200))
+	}
 	e.feasCache[key] = r
 	return r != Unsat, r
 }
